@@ -99,6 +99,24 @@ def _gen(case):
         xc, yc = (-d, rng.uniform(0, ny - 1)) if rng.random() < 0.5 else (rng.uniform(0, nx - 1), ny - 1 + d)
         if rng.random() < 0.2:
             xc, yc = -d, -d
+    if ax.random() < 0.12:
+        # axis2 (viii): each of the four borders and four corners separately (the left/bottom border is a different
+        # code path from the right/top one); the centre lies within 1.5 px inside or outside of that border
+        where = str(ax.choice(['left', 'right', 'bottom', 'top', 'corner_ll', 'corner_lr', 'corner_ul', 'corner_ur']))
+        off = lambda: float(ax.uniform(-1.5, 1.5))           # noqa: E731
+        xin, yin = float(ax.uniform(0, nx - 1)), float(ax.uniform(0, ny - 1))
+        xc = {'left': -0.5 + off(), 'right': nx - 0.5 + off()}.get(where, xin)
+        yc = {'bottom': -0.5 + off(), 'top': ny - 0.5 + off()}.get(where, yin)
+        if where.startswith('corner'):
+            xc = (-0.5 if where[-1] == 'l' else nx - 0.5) + off()
+            yc = (-0.5 if where[-2] == 'l' else ny - 0.5) + off()
+        place = 'edge'
+        axes.append('2_centre_near_' + where)
+    if ax.random() < 0.08:
+        # axis2 (ix): centre exactly at k or k + 0.5, both parities
+        xc = float(np.floor(xc)) + float(ax.choice([0.0, 0.5]))
+        yc = float(np.floor(yc)) + float(ax.choice([0.0, 0.5]))
+        axes.append('2_centre_exact_k_or_half')
     if rng.random() < 0.2:
         xc, yc = float(np.round(xc)), float(np.round(yc))
     if rng.random() < 0.1:
@@ -150,6 +168,12 @@ def _gen(case):
         radii = np.cumsum(rng.uniform(0.05, 2 * rmax / nrad, nrad))
     if rng.random() < 0.25:
         radii = np.round(radii * 2) / 2 + 0.5          # integer / half-integer radii
+    if ax.random() < 0.1:
+        # axis2 (ix): radii exactly integer or exactly half-integer (aperture edges through pixel centres / corners)
+        kmax = max(3, int(np.ceil(rmax)))
+        ks = np.sort(ax.choice(np.arange(1, kmax + 1), size=min(kmax, max(2, nrad)), replace=False)).astype(float)
+        radii = ks if ax.random() < 0.5 else ks - 0.5
+        axes.append('2_radii_exact_integer_or_half')
     radii = np.unique(np.round(radii, 6))
     radii = radii[radii > 0]
     if radii.size < 2:
@@ -220,7 +244,7 @@ def _gen(case):
     # ---- generic axes -------------------------------------------------------------------------------
     # (i) magnitude: one overall scale for data and error (about 60 % of the cases stay at 1)
     mag = 1.0
-    if ax.random() < 0.4:
+    if ax.random() < 0.3:
         mag = float(2.0 ** int(ax.integers(-60, 41))) if ax.random() < 0.5 else float(10.0 ** int(ax.integers(-20, 11)))
         data = data * mag
         if error is not None:
@@ -234,11 +258,45 @@ def _gen(case):
     if ax.random() < 0.02:
         mask = np.ones(shape, bool)
         axes.append('degenerate_all_masked')
+    # axis2 (xi): special masks -- all False (caller-owned, must stay unmodified), all True, only the peak pixel
+    if ax.random() < 0.07:
+        which = str(ax.choice(['all_false', 'all_true', 'peak_only']))
+        if which == 'all_false':
+            mask = np.zeros(shape, bool)
+        elif which == 'all_true':
+            mask = np.ones(shape, bool)
+        else:
+            mask = np.zeros(shape, bool)
+            fin_ = np.where(np.isfinite(data), data, -np.inf)
+            mask[np.unravel_index(int(np.argmax(fin_)), shape)] = True
+        axes.append('2_mask_' + which)
     # (iii) memory layout / dtype of the image arrays (the values are first rounded to the representation, so the
     #       reference sees exactly the numbers the library is given)
     layout = 'c'
-    if ax.random() < 0.2:
-        layout = str(ax.choice(['fortran', 'strided', 'bigendian', 'float32', 'int']))
+    if ax.random() < 0.15:
+        layout = str(ax.choice(['fortran', 'strided', 'bigendian', 'float32', 'int', 'uint16', 'uint8', 'int16',
+                                'uint32', 'float16', 'uint16', 'float32']))
+        if layout in ('uint16', 'uint8', 'int16', 'uint32', 'float16'):
+            # axis2 (vii): narrow / unsigned image dtype.  The image is rescaled into the range of the dtype and
+            # rounded to what it holds; the reference works on the float64 copy of exactly those values
+            top = {'uint16': 60000.0, 'uint8': 250.0, 'int16': 32000.0, 'uint32': 4.0e9, 'float16': 1000.0}[layout]
+            amax = float(np.max(np.abs(data))) if np.all(np.isfinite(data)) else 0.0
+            if amax > 0:
+                fac = top / amax
+                with np.errstate(all='ignore'):
+                    d_ = data * fac
+                    if layout.startswith('u'):
+                        d_ = np.clip(d_, 0, None)
+                    d_ = d_.astype('f2').astype(float) if layout == 'float16' else np.round(d_)
+                if np.all(np.isfinite(d_)):
+                    data = d_
+                    if error is not None:
+                        error = error * fac
+                    axes.append('2_dtype_' + layout)
+                else:
+                    layout = 'fortran'
+            else:
+                layout = 'fortran'
         if layout == 'float32':
             # only the image is float32: a float32 *error* map is squared in float32 by the aperture code
             # (relative 6e-8, observed 4.6e-8 against the float64 reference) -- representation dependence of
@@ -257,7 +315,7 @@ def _gen(case):
         axes.append('layout_' + layout)
     # (ii) call forms of xycen / radii / subpixels
     forms = dict(xycen='tuple', radii='array', subpixels='int')
-    if ax.random() < 0.15:
+    if ax.random() < 0.1:
         forms['xycen'] = str(ax.choice(['list', 'array', 'numpy_scalars']))
         forms['radii'] = str(ax.choice(['list', 'tuple', 'array']))
         forms['subpixels'] = str(ax.choice(['int', 'numpy_int']))
@@ -289,6 +347,8 @@ def _layout(arr, layout, is_data=False):
         return arr.astype('f4')
     if layout == 'int' and is_data:
         return arr.astype(np.int64)
+    if layout in ('uint16', 'uint8', 'int16', 'uint32', 'float16'):
+        return arr.astype(layout) if is_data else arr.copy()
     return arr.copy()
 
 
